@@ -75,6 +75,8 @@ type linEnv struct {
 	side [][][]*linForm
 	divs map[ssa.Value]string // x / k quotient variables (one per SSA division)
 	phis map[ssa.Value]bool
+	// representative load of each (object, field) value class
+	loadRep map[string]*ssa.UnOp
 }
 
 func newLinEnv() *linEnv {
@@ -187,12 +189,40 @@ func (e *linEnv) varName(v ssa.Value) string {
 			}
 		}
 	}
-	// field load: unify loads of the same field of the same object
+	// field load: loads of the same field of the same object denote the same value when no write
+	// to that field (a store, or a call to a module function that stores to it) can execute
+	// between them
 	if u, ok := v.(*ssa.UnOp); ok && u.Op == token.MUL {
 		if fa, ok := u.X.(*ssa.FieldAddr); ok {
 			if fv := fieldVar(fa.X.Type(), fa.Field); fv != nil {
-				name = "." + fv.Name() + "@" + e.varName(fa.X)
+				base := "." + fv.Name() + "@" + e.varName(fa.X)
+				name = base
+				for k := 0; ; k++ {
+					cand := base
+					if k > 0 {
+						cand = fmt.Sprintf("%s~%d", base, k)
+					}
+					rep, used := e.loadRep[cand]
+					if !used {
+						if e.loadRep == nil {
+							e.loadRep = map[string]*ssa.UnOp{}
+						}
+						e.loadRep[cand] = u
+						name = cand
+						break
+					}
+					if !fieldWrittenBetween(rep, u, fv) && !fieldWrittenBetween(u, rep, fv) {
+						name = cand
+						break
+					}
+				}
 			}
+		}
+	}
+	// the address of a field: named structurally, so that two evaluations of &x.f agree
+	if fa, ok := v.(*ssa.FieldAddr); ok {
+		if fv := fieldVar(fa.X.Type(), fa.Field); fv != nil {
+			name = "&" + fv.Name() + "@" + e.varName(fa.X)
 		}
 	}
 	if x, isLen := isLenOf(v); isLen {
@@ -563,4 +593,47 @@ func isLoopHeader(b *ssa.BasicBlock) bool {
 		}
 	}
 	return false
+}
+
+// fieldWrittenBetween: can a write to field fv execute after load a and before load b (same function)?
+func fieldWrittenBetween(a, b *ssa.UnOp, fv *types.Var) bool {
+	fn := a.Parent()
+	if fn == nil || b.Parent() != fn {
+		return true
+	}
+	var writers map[*ssa.Function]bool
+	for _, blk := range fn.Blocks {
+		for _, in := range blk.Instrs {
+			w := false
+			switch x := in.(type) {
+			case *ssa.Store:
+				if f, _ := fieldOfAddr(x.Addr); f == fv {
+					w = true
+				}
+			case ssa.CallInstruction:
+				if sc := x.Common().StaticCallee(); sc != nil && inModule(sc) && gProg != nil {
+					if writers == nil {
+						writers = map[*ssa.Function]bool{}
+						for _, fw := range gProg.writersOf(fv) {
+							writers[fw.Fn] = true
+						}
+					}
+					if writers[sc] {
+						w = true
+					}
+				}
+			}
+			if w && canFollow(a, in) && canFollow(in, b) {
+				return true
+			}
+		}
+	}
+	return false
+}
+
+func fieldOfAddr(addr ssa.Value) (*types.Var, ssa.Value) {
+	if fa, ok := addr.(*ssa.FieldAddr); ok {
+		return fieldVar(fa.X.Type(), fa.Field), fa.X
+	}
+	return nil, nil
 }
